@@ -36,9 +36,9 @@ func main() {
 	a := vh.ParseArgs()
 	switch a.Mode {
 	case "gen":
-		n, steps := 60, 260
+		n, steps := 250, 420
 		if a.Tier == "thorough" {
-			n, steps = 3000, 400
+			n, steps = 3000, 600
 		}
 		if a.N > 0 {
 			n = a.N
@@ -58,78 +58,20 @@ func main() {
 // ---------------------------------------------------------------------------
 // generation
 
-type inflight struct {
-	m pb.Message
-}
-
 type gen struct {
+	*raftsim.Driver
 	r       *vh.Rand
 	c       *raftsim.Cluster
 	ops     []string
-	pool    []pb.Message
 	nextKey uint64
 	started map[uint64]byte
 	pending map[uint64]byte // id -> kind of nodes added by a proposed config change, not yet started
 	blocked map[uint64]bool
-	stopped bool
 }
 
-func (g *gen) do(op string) raftsim.Result {
-	res := g.c.Exec(op, 0, false)
-	if res.Panicked {
-		g.ops = append(g.ops, op+" @0")
-		g.stopped = true
-		return res
-	}
-	rt := raftsim.RandTimeout(res.Node)
-	g.ops = append(g.ops, fmt.Sprintf("%s @%d", op, rt))
-	if res.Update != nil {
-		g.afterUpdate(res.Node, res.Update)
-	}
-	return res
-}
+func (g *gen) do(op string) raftsim.Result { return g.Do(op) }
 
-func (g *gen) afterUpdate(n *raftsim.Node, ud *pb.Update) {
-	for _, m := range ud.Messages {
-		if m.To != n.ID && m.To != 0 {
-			g.pool = append(g.pool, m)
-		}
-	}
-	n.Queue = append(n.Queue, ud.CommittedEntries...)
-	if !pb.IsEmptySnapshot(ud.Snapshot) {
-		// the replica recovers from the received snapshot
-		ss := ud.Snapshot
-		n.Queue = nil
-		n.Mem = membershipOf(ss)
-		g.do(fmt.Sprintf("RR %d %s", n.ID, fmtSS(ss)))
-		if !g.stopped {
-			g.do(fmt.Sprintf("NLA %d %d", n.ID, ss.Index))
-		}
-	}
-}
-
-func membershipOf(ss pb.Snapshot) raftsim.Membership {
-	m := raftsim.Membership{Voters: map[uint64]bool{}, NonVotings: map[uint64]bool{}, Witnesses: map[uint64]bool{}, Removed: map[uint64]bool{}}
-	for k := range ss.Membership.Addresses {
-		m.Voters[k] = true
-	}
-	for k := range ss.Membership.NonVotings {
-		m.NonVotings[k] = true
-	}
-	for k := range ss.Membership.Witnesses {
-		m.Witnesses[k] = true
-	}
-	for k := range ss.Membership.Removed {
-		m.Removed[k] = true
-	}
-	return m
-}
-
-func fmtSS(ss pb.Snapshot) string {
-	// reuse the message formatter: the snapshot is its last ':'-separated field
-	s := raftsim.FmtMsg(pb.Message{Snapshot: ss})
-	return s[strings.LastIndex(s, ":")+1:]
-}
+func fmtSS(ss pb.Snapshot) string { return raftsim.FmtSnapshot(ss) }
 
 func sortedIDs(m map[uint64]bool) []uint64 {
 	var out []uint64
@@ -154,69 +96,42 @@ func (g *gen) cc(id, t, target uint64) {
 	g.do(fmt.Sprintf("CC %d %d %d %d %s", id, g.nextKey, t, target, vh.Hex(pb.MustMarshal(&cc))))
 }
 
-func (g *gen) update(id uint64) {
-	n := g.c.Nodes[id]
-	g.do(fmt.Sprintf("U %d 1 %d", id, n.Applied))
+// startPending starts a replica once its addition has been applied somewhere with that kind.
+func (g *gen) startPending() {
+	for _, k := range sortedPending(g.pending) {
+		known := false
+		for _, o := range g.c.Nodes {
+			kind := g.pending[k]
+			if (kind == 'V' && o.Mem.Voters[k]) || (kind == 'N' && o.Mem.NonVotings[k]) || (kind == 'W' && o.Mem.Witnesses[k]) {
+				known = true
+			}
+		}
+		if known {
+			g.do(fmt.Sprintf("START %d %c . -", k, g.pending[k]))
+			g.started[k] = g.pending[k]
+			delete(g.pending, k)
+			return
+		}
+	}
 }
 
-func (g *gen) apply(id uint64, max int) {
-	n := g.c.Nodes[id]
-	cnt := 0
-	last := uint64(0)
-	for len(n.Queue) > 0 && cnt < max && !g.stopped {
-		e := n.Queue[0]
-		n.Queue = n.Queue[1:]
-		if e.Index <= n.Applied {
-			continue
-		}
-		cnt++
-		if e.Type == pb.ConfigChangeEntry {
-			var cc pb.ConfigChange
-			if err := cc.Unmarshal(e.Cmd); err != nil {
-				panic(err)
-			}
-			if n.Mem.Apply(cc.Type, cc.ReplicaID) {
-				g.do(fmt.Sprintf("ACC %d %d %d", id, cc.Type, cc.ReplicaID))
-			} else {
-				g.do(fmt.Sprintf("RCC %d", id))
-			}
-		}
-		n.Applied = e.Index
-		last = e.Index
-	}
-	if last > 0 && !g.stopped {
-		g.do(fmt.Sprintf("NLA %d %d", id, last))
-	}
-}
+func (g *gen) update(id uint64) { g.Update(id) }
+
+func (g *gen) apply(id uint64, max int) { g.Apply(id, max) }
 
 func (g *gen) deliver() {
-	if len(g.pool) == 0 {
+	if len(g.Pool) == 0 {
 		return
 	}
-	i := g.r.Intn(len(g.pool))
-	m := g.pool[i]
+	i := g.r.Intn(len(g.Pool))
+	m := g.Pool[i]
 	dup := g.r.Chance(1, 12)
-	if !dup {
-		g.pool[i] = g.pool[len(g.pool)-1]
-		g.pool = g.pool[:len(g.pool)-1]
-	}
-	if g.r.Chance(1, 20) || g.blocked[m.To] || g.blocked[m.From] {
-		return // lost
-	}
-	if _, ok := g.c.Nodes[m.To]; !ok {
+	lost := g.r.Chance(1, 20) || g.blocked[m.To] || g.blocked[m.From]
+	g.Deliver(i, dup, lost, g.r)
+	if g.Stopped || lost {
 		return
 	}
-	g.do(fmt.Sprintf("M %d %s", m.To, raftsim.FmtMsg(m)))
-	if g.stopped {
-		return
-	}
-	if m.Type == pb.InstallSnapshot {
-		// the transport reports the snapshot status back to the sender
-		if _, ok := g.c.Nodes[m.From]; ok && g.r.Chance(4, 5) {
-			g.do(fmt.Sprintf("SS %d %d %d", m.From, m.To, b2i(g.r.Chance(1, 6))))
-		}
-	}
-	if g.r.Chance(3, 4) {
+	if _, ok := g.c.Nodes[m.To]; ok && g.r.Chance(3, 4) {
 		g.update(m.To)
 	}
 }
@@ -236,6 +151,8 @@ func generate(r *vh.Rand, steps int) (string, []string) {
 	c.PV = r.Bool()
 	nv := []int{1, 2, 3, 3, 3, 3, 4, 5, 5}[r.Intn(9)]
 	g := &gen{r: r, c: c, started: map[uint64]byte{}, pending: map[uint64]byte{}, blocked: map[uint64]bool{}, nextKey: 100}
+	g.Driver = &raftsim.Driver{C: c}
+	g.Record = func(op string, rt uint64) { g.ops = append(g.ops, fmt.Sprintf("%s @%d", op, rt)) }
 	var init []string
 	for i := 1; i <= nv; i++ {
 		init = append(init, fmt.Sprint(i))
@@ -245,37 +162,43 @@ func generate(r *vh.Rand, steps int) (string, []string) {
 		g.started[uint64(i)] = 'V'
 	}
 	nextID := uint64(nv + 1)
-	for step := 0; step < steps && !g.stopped; step++ {
+	for step := 0; step < steps && !g.Stopped; step++ {
+		if len(g.pending) > 0 && r.Chance(1, 5) {
+			g.startPending()
+			if g.Stopped {
+				break
+			}
+		}
 		ids := g.liveIDs()
 		id := ids[r.Intn(len(ids))]
 		n := c.Nodes[id]
 		switch x := r.Intn(100); {
-		case x < 30:
+		case x < 28:
 			if !g.blocked[id] || r.Chance(1, 3) {
 				g.do(fmt.Sprintf("T %d", id))
-				if !g.stopped && r.Chance(3, 4) {
+				if !g.Stopped && r.Chance(3, 4) {
 					g.update(id)
 				}
 			}
-		case x < 68:
+		case x < 64:
 			g.deliver()
-		case x < 76:
+		case x < 72:
 			g.update(id)
-		case x < 84:
+		case x < 80:
 			g.apply(id, 1+r.Intn(6))
-		case x < 90:
+		case x < 84:
 			g.nextKey++
 			g.do(fmt.Sprintf("P %d %d %d %d %s", id, g.nextKey, 0, 0, vh.Hex([]byte{byte(g.nextKey), byte(g.nextKey >> 8)})))
-			if !g.stopped && r.Chance(3, 4) {
+			if !g.Stopped && r.Chance(3, 4) {
 				g.update(id)
 			}
-		case x < 93:
+		case x < 87:
 			g.nextKey++
 			g.do(fmt.Sprintf("R %d %d %d", id, g.nextKey, r.Intn(3)))
-			if !g.stopped && r.Chance(3, 4) {
+			if !g.Stopped && r.Chance(3, 4) {
 				g.update(id)
 			}
-		case x < 96:
+		case x < 92:
 			// membership change
 			g.nextKey++
 			switch r.Intn(5) {
@@ -299,26 +222,29 @@ func generate(r *vh.Rand, steps int) (string, []string) {
 					g.cc(id, uint64(pb.RemoveNode), v[r.Intn(len(v))])
 				}
 			default:
-				// an invalid / repeated request
-				g.cc(id, uint64(r.Intn(4)), uint64(1+r.Intn(7)))
+				// an invalid / repeated request about a replica that exists (an id is never reused for
+				// another kind of replica: that would be an operator error, not a fault)
+				var all []uint64
+				all = append(all, sortedIDs(n.Mem.Voters)...)
+				all = append(all, sortedIDs(n.Mem.NonVotings)...)
+				all = append(all, sortedIDs(n.Mem.Witnesses)...)
+				all = append(all, sortedIDs(n.Mem.Removed)...)
+				if len(all) > 0 {
+					g.cc(id, uint64(r.Intn(4)), all[r.Intn(len(all))])
+				}
 			}
-			if !g.stopped && r.Chance(3, 4) {
+			if !g.Stopped && r.Chance(3, 4) {
 				g.update(id)
 			}
-		case x < 97:
+		case x < 93:
 			// start a node that was added
-			for _, k := range sortedPending(g.pending) {
-				g.do(fmt.Sprintf("START %d %c . -", k, g.pending[k]))
-				g.started[k] = g.pending[k]
-				delete(g.pending, k)
-				break
-			}
-		case x < 98:
+			g.startPending()
+		case x < 94:
 			v := sortedIDs(n.Mem.Voters)
 			if len(v) > 0 {
 				g.do(fmt.Sprintf("LT %d %d", id, v[r.Intn(len(v))]))
 			}
-		case x < 99:
+		case x < 96:
 			switch r.Intn(3) {
 			case 0:
 				g.do(fmt.Sprintf("RESTART %d", id))
@@ -347,11 +273,17 @@ func generate(r *vh.Rand, steps int) (string, []string) {
 				g.do(fmt.Sprintf("UN %d %d", id, 1+r.Intn(5)))
 			}
 		default:
-			// partition toggling
-			if len(g.blocked) > 0 && r.Bool() {
+			// partition toggling: heal, or isolate the current leader (if any) or a random replica
+			if len(g.blocked) > 0 && r.Chance(2, 3) {
 				g.blocked = map[uint64]bool{}
 			} else {
-				g.blocked[id] = true
+				target := id
+				for _, k := range ids {
+					if raftsim.Inspect(c.Nodes[k]).Role == 3 && r.Chance(3, 4) {
+						target = k
+					}
+				}
+				g.blocked[target] = true
 			}
 		}
 	}
@@ -411,7 +343,7 @@ type monitor struct {
 
 func newMonitor() *monitor {
 	return &monitor{leaderOfTerm: map[uint64]uint64{}, voteOf: map[[2]uint64]uint64{}, committed: map[uint64]commitRec{},
-		appliedNext: map[uint64]uint64{}, readAt: map[[2]uint64]uint64{}, kinds: map[uint64]byte{}}
+		appliedNext: map[uint64]uint64{}, readAt: map[[2]uint64]uint64{}, kinds: map[uint64]byte{}, prevRole: map[uint64]uint64{}}
 }
 
 func (mo *monitor) v(p string, format string, a ...interface{}) {
@@ -473,14 +405,24 @@ func (mo *monitor) observe(c *raftsim.Cluster, op string, res raftsim.Result) {
 				}
 			}
 		}
-		// --- C18: only full voters lead
-		if mo.kinds[n.ID] != 'V' && n.Kind != 'V' {
-			mo.v("C18", "replica %d of kind %c is leader", n.ID, n.Kind)
+	}
+	// --- C18: only full voters campaign or lead: a replica whose own membership lists it as
+	// non-voting or witness, or that was non-voting/witness one operation ago, must not be
+	// (pre)candidate or leader (promotion goes through the follower role)
+	if st.Role == 1 || st.Role == 2 || st.Role == 3 {
+		for _, rm := range st.Remotes {
+			if rm.ID == n.ID && rm.Kind != 0 {
+				mo.v("C18", "replica %d is role %d while its membership lists it as kind %d", n.ID, st.Role, rm.Kind)
+			}
+		}
+		if pr, ok := mo.prevRole[n.ID]; ok && (pr == 4 || pr == 5) && f[0] != "RESTART" && f[0] != "START" {
+			mo.v("C18", "replica %d went from role %d directly to role %d", n.ID, pr, st.Role)
 		}
 	}
-	if (st.Role == 1 || st.Role == 2) && n.Kind != 'V' {
-		mo.v("C18", "replica %d of kind %c campaigns (role %d)", n.ID, n.Kind, st.Role)
+	if pr, ok := mo.prevRole[n.ID]; ok && pr == 5 && st.Role != 5 && f[0] != "RESTART" {
+		mo.v("C18", "witness %d changed role to %d", n.ID, st.Role)
 	}
+	mo.prevRole[n.ID] = st.Role
 	// --- C02: committed entries agree across replicas and never change
 	if !st.EntriesCompacted {
 		for i, e := range st.Entries {
@@ -579,6 +521,10 @@ func (mo *monitor) checkRead(node, low, high, index uint64) {
 	}
 }
 
+const fairRounds = 120
+
+var progressOK, progressInconclusive int
+
 func runCases(a vh.Args) {
 	rule := map[string]string{
 		"C02": "non-trivial = a schedule in which at least 3 entries were committed and one replica restarted or a conflict was overwritten",
@@ -617,6 +563,17 @@ func runCases(a vh.Args) {
 				special = true
 			}
 		}
+		if (prop == "C17" || prop == "ALL") && len(mo.viol) == 0 && len(c.Nodes) > 0 {
+			// progress monitor: fault-free fair schedule after the recorded fault prefix
+			d := &raftsim.Driver{C: c}
+			if why := d.FairPhase(fairRounds); why != "" {
+				mo.v("C17", "%s", why)
+			} else if d.Inconclusive {
+				progressInconclusive++
+			} else {
+				progressOK++
+			}
+		}
 		for _, v := range mo.viol {
 			st.Violation(id, v)
 			break
@@ -632,6 +589,9 @@ func runCases(a vh.Args) {
 		st.Case(sp[1], nt, smp)
 	}
 	obs.Close()
+	if prop == "C17" {
+		st.Notes["fair_phase"] = fmt.Sprintf("%d schedules reached leader+commit+catch-up within %d fault-free rounds; %d inconclusive (a replica started with a kind contradicting the membership)", progressOK, fairRounds, progressInconclusive)
+	}
 	st.Write(a.Out)
 }
 
